@@ -114,6 +114,15 @@ func genC06(t *rapid.T) C06Case {
 		c.X = wordsToDigitStringMSF(nz(h.GenWords(t, "x", genLen(t, "m", max))))
 	case "div":
 		n := genLen(t, "n", max) // divisor length
+		recursive := rapid.IntRange(0, 2).Draw(t, "recursive") > 0
+		if recursive {
+			// recursive division: divisor of at least divRecursiveThreshold words
+			hi := 260
+			if hi > max {
+				hi = max
+			}
+			n = rapid.IntRange(100, hi).Draw(t, "nrec")
+		}
 		v := nz(h.GenWords(t, "v", n))
 		if rapid.IntRange(0, 2).Draw(t, "vtop") == 0 {
 			// top word close to the normalisation boundaries
@@ -121,7 +130,28 @@ func genC06(t *rapid.T) C06Case {
 		}
 		vb := wordsBig(v)
 		var ub *big.Int
-		switch rapid.IntRange(0, 3).Draw(t, "ukind") {
+		ukind := rapid.IntRange(0, 3).Draw(t, "ukind")
+		if recursive && rapid.IntRange(0, 3).Draw(t, "adversarial") == 0 {
+			// worst case for the block quotient estimate: smallest normalised top word, low half all nines,
+			// quotient as long and as large as a block allows
+			v[0] = h.Base/2 + uint64(rapid.IntRange(0, 1).Draw(t, "advtop"))
+			for i := n / 2; i < n; i++ {
+				if rapid.IntRange(0, 15).Draw(t, "advlow") > 0 {
+					v[i] = h.Base - 1
+				}
+			}
+			vb = wordsBig(v)
+			k := n/2 + rapid.IntRange(-1, 2).Draw(t, "advk")
+			q := make([]uint64, k)
+			for i := range q {
+				q[i] = h.Base - 1 - uint64(rapid.IntRange(0, 2).Draw(t, "advq"))
+			}
+			ub = new(big.Int).Mul(wordsBig(q), vb)
+			ub.Add(ub, big.NewInt(int64(rapid.IntRange(0, 1).Draw(t, "advr"))))
+			ukind = -1
+		}
+		switch ukind {
+		case -1:
 		case 0:
 			// raw dividend
 			k := genLen(t, "k", max)
@@ -130,6 +160,20 @@ func genC06(t *rapid.T) C06Case {
 		default:
 			// u = q*v + r with chosen q and r
 			k := genLen(t, "k", max)
+			if recursive {
+				// quotient lengths around the block size B = n/2: only the final block, exactly one more, several
+				switch rapid.IntRange(0, 3).Draw(t, "kcls") {
+				case 0:
+					k = rapid.IntRange(1, n/2+2).Draw(t, "kfinal")
+				case 1:
+					k = n/2 + rapid.IntRange(-2, 3).Draw(t, "kedge")
+				case 2:
+					k = n + rapid.IntRange(-2, 2).Draw(t, "kn")
+				}
+				if k < 1 {
+					k = 1
+				}
+			}
 			q := nz(h.GenWords(t, "q", k))
 			qb := wordsBig(q)
 			var rb *big.Int
